@@ -5,6 +5,13 @@ KindsAll   == {"A", "CNAME", "DNAME", "NS", "LAME", "REFUSE", "SELFREF", "REFGEN
 KindsCycle == {"A", "CNAME", "DNAME", "NS"}
 KindsCyc3  == {"A", "CNAME", "NS"}
 KindsFail  == {"A", "CNAME", "NS", "LAME", "REFGEN"}
+\* the NXNS family: glue-less multi-NS referrals, dead servers, aliases (the IPv6 enrichment configurations)
+KindsNX    == {"A", "CNAME", "NS", "LAME"}
+KindsNS    == {"A", "NS", "LAME"}
+BudgetsV   == {<<2, 1>>, <<9, 3>>}
+V6Off      == {FALSE}
+V6On       == {TRUE}
+V6Both     == {FALSE, TRUE}
 Fans01     == {0, 1}
 Fans02     == {0, 2}
 BudgetsQ   == {<<1, 1>>, <<4, 2>>, <<9, 3>>}
@@ -12,7 +19,7 @@ BudgetsT   == {<<1, 1>>, <<2, 1>>, <<4, 2>>, <<6, 1>>, <<9, 3>>, <<40, 12>>}
 BudgetsOne == {<<6, 2>>}
 \* debugging aid: one fixed topology (edit freely; not used by the check)
 TopoOne == <<[kind |-> "NS", tgt |-> {1, 3}, fan |-> 0], [kind |-> "A", tgt |-> {}, fan |-> 0], [kind |-> "NS", tgt |-> {2, 3}, fan |-> 0]>>
-InitOne == topo = TopoOne /\ budget = <<40, 12>> /\ run = [m \in Modes |-> R0]
+InitOne == topo = TopoOne /\ budget = <<40, 12>> /\ v6 = TRUE /\ run = [m \in Modes |-> R0]
 SpecOne == InitOne /\ [][Next]_vars /\ WF_vars(Next)
 NotDone == ~AllDone
 =============================================================================
